@@ -133,12 +133,12 @@ def all_op(items: SeqIdx, op: OpT) -> BOOL:
 
 M.lemma("removed_only_if_absent_from_new", vars=dict(rest=Tree, old=Tree, new=Tree, dp=DiffPre, pops=SeqOp, i=INT),
         hyps=["subkeys(rest, old)"], goal="removed_exact(rem_items(rest, old, new, dp, pops, i), old, new)", induct="rest",
-        properties=["C03"])
+        properties=["C03", "C01"])
 M.lemma("added_iff_absent_from_old", vars=dict(rest=Tree, old=Tree, new=Tree, dp=DiffPre, pops=SeqOp, i=INT, dis=BOOL, mta=BOOL),
         hyps=["subkeys(rest, new)", "len(pops) > 0", "pops[-1] != Op.ADDED"],
-        goal="added_exact(new_items(rest, new, old, dp, pops, i, dis, mta), old, new)", induct="rest", properties=["C03"])
+        goal="added_exact(new_items(rest, new, old, dp, pops, i, dis, mta), old, new)", induct="rest", properties=["C03", "C01"])
 M.lemma("nothing_removed_when_all_rows_stay", vars=dict(rest=Tree, old=Tree, new=Tree, dp=DiffPre, pops=SeqOp, i=INT),
-        hyps=["subkeys(rest, new)"], goal="rem_items(rest, old, new, dp, pops, i) == []", induct="rest", properties=["C03"])
+        hyps=["subkeys(rest, new)"], goal="rem_items(rest, old, new, dp, pops, i) == []", induct="rest", properties=["C03", "C01"])
 
 M.lemma("index_map_is_pos", vars=dict(t=Tree, row=STR, i=INT), hyps=["dhas(t, row)"],
         goal="imap(t, i)[row] == pos(t, row, i)", induct="t", properties=["C03"], pattern="imap(t, i)[row]")
@@ -217,13 +217,13 @@ def _nat(fn, pops_name):
 M.contract(F, "call_diff_logic", params=dict(diff_pre=DiffPre, old=Tree, new=Tree, pops=SeqOp), ret=Diff, trusted=True,
            ensures=["result == cdl(diff_pre, old, new, pops)"],
            note="assumed: groups rows by their %diff_logic and dispatches (function values stored in the rulebook): bounded only",
-           properties=["C03"])
+           properties=["C03", "C01"])
 
 M.contract(F, "_ignore_case", params=dict(diff_pre=DiffPre, cfg=Tree), ret=Tree,
            requires=["no_ic(diff_pre, diff_pre)"], ensures=["result == cfg"],
            loops={1: dict(match="diff_pre", inv=["not has_ignore_case", "no_ic(_rest1, diff_pre)"]),
                   2: dict(match="cfg", inv=["False"])},
-           canaries=["len(result) == 0"], properties=["C03"], inputs=_ic_inputs,
+           canaries=["len(result) == 0"], properties=["C03", "C01"], inputs=_ic_inputs,
            note="restricted by precondition to levels without an %ignore_case rule (the lower-casing branch is bounded only)")
 
 M.contract(F, "base_diff", params=dict(old=Tree, new=Tree, diff_pre=DiffPre, pops=SeqOp, moved_to_affected=BOOL),
@@ -240,15 +240,15 @@ M.contract(F, "base_diff", params=dict(old=Tree, new=Tree, diff_pre=DiffPre, pop
                                "diff_indexed + new_items(_rest2, new, old, diff_pre, pops, _i2, block_in_disorder, moved_to_affected) == "
                                "rem_items(old, old, new, diff_pre, pops, 0) + new_items(new, new, old, diff_pre, pops, 0, False, moved_to_affected)"])},
            use=["index_map_is_pos", "index_map_has"], inputs=_bd_inputs, native_fn=_nat(_c.base_diff, "pops"),
-           canaries=["len(result) == 0"], properties=["C03"])
+           canaries=["len(result) == 0"], properties=["C03", "C01"])
 
 M.contract(F, "default_diff", params=dict(old=Tree, new=Tree, diff_pre=DiffPre, _pops=SeqOp), ret=Diff,
            requires=["no_ic(diff_pre, diff_pre)", "covered(old, diff_pre)", "covered(new, diff_pre)", "len(_pops) > 0"],
            ensures=["result == [x[1] for x in isort(rem_items(old, old, new, diff_pre, _pops, 0) + "
                     "new_items(new, new, old, diff_pre, _pops, 0, False, True))]"],
-           comp_types={"*": Diff}, canaries=["len(result) == 0"], properties=["C03"], inputs=_dd_inputs, native_fn=_nat(_c.default_diff, "_pops"))
+           comp_types={"*": Diff}, canaries=["len(result) == 0"], properties=["C03", "C01"], inputs=_dd_inputs, native_fn=_nat(_c.default_diff, "_pops"))
 M.contract(F, "ordered_diff", params=dict(old=Tree, new=Tree, diff_pre=DiffPre, _pops=SeqOp), ret=Diff,
            requires=["no_ic(diff_pre, diff_pre)", "covered(old, diff_pre)", "covered(new, diff_pre)", "len(_pops) > 0"],
            ensures=["result == [x[1] for x in isort(rem_items(old, old, new, diff_pre, _pops, 0) + "
                     "new_items(new, new, old, diff_pre, _pops, 0, False, False))]"],
-           comp_types={"*": Diff}, canaries=["len(result) == 0"], properties=["C03"], inputs=_dd_inputs, native_fn=_nat(_c.ordered_diff, "_pops"))
+           comp_types={"*": Diff}, canaries=["len(result) == 0"], properties=["C03", "C01"], inputs=_dd_inputs, native_fn=_nat(_c.ordered_diff, "_pops"))
